@@ -18,12 +18,12 @@ the call wrapper is the containment wall. Two workload families:
 import copy
 import random as _random
 
-from .. import gen_exec, ir
+from .. import gen_exec, ir, interloper
 from ..core import Stats, Violation, stream, digest_of, canon, find_non_values, SimOptions
 from ..driver import RunResult
 from ..env import Env, EXC_NAMES, make_exception
 from ..refvm import HostFailure
-from ..realrun import run_real, run_ref, compare_outcomes, norm_events
+from ..realrun import run_real, run_ref, compare_outcomes, norm_events, interloper_probe
 
 PROP = 'C05'
 LEVEL = 'fault_enumeration'
@@ -70,6 +70,9 @@ def gen(seed, tier, extra=None):
     plan['has_log'] = rng.random() < 0.85
     plan['debug'] = rng.random() < 0.5
     plan['rot'] = rng.randrange(len(EXC_NAMES))
+    ri = stream(seed, 'interloper')
+    if ri.random() < 0.3:
+        plan['interloper_spec'] = interloper.spec(ri, sites=('hostTick', 'hostNext', 'hostObserve', 'hostCall', 'log'))
     return plan
 
 
@@ -270,13 +273,32 @@ def gen_adversarial(seed, rng):
         ir.st_return(ir.call('fnRec', ir.binop('+', ir.var('n'), ir.num(1)), ir.var('lim'))),
         ir.st_label('done'),
         ir.st_return(ir.var('n'))]))
+    # fnId(v): a script function that must NOT fail — its calls have known values (a spurious host exception inside
+    # the interpreter's own machinery would be contained by the call wrapper and turn them into null)
+    stmts.append(ir.st_function('fnId', ['v'], [ir.st_expr(ir.call('hostTick', ir.s('in-fnId'))), ir.st_return(ir.var('v'))]))
     n = rng.randint(2, 8)
     kinds = []
+    expect = {}
     for ix in range(n):
         c = rng.random()
         if c < 0.05:
-            e = ir.call('fnRec', ir.num(0), ir.num(rng.choice([30, 150, 400, 3000, 1000000000])))
+            lim = rng.choice([30, 150, 400, 3000, 1000000000])
+            e = ir.call('fnRec', ir.num(0), ir.num(lim))
             kinds.append('deep-recursion')
+            if lim <= 400:
+                expect[str(ix)] = ['n', lim]
+        elif c < 0.09:
+            k = rng.choice(['direct', 'nested', 'hostCall', 'array'])
+            if k == 'direct':
+                e, expect[str(ix)] = ir.call('fnId', ir.num(7)), ['n', 7]
+            elif k == 'nested':
+                e, expect[str(ix)] = ir.call('fnId', ir.call('fnId', ir.s('s'))), 's'
+            elif k == 'hostCall':
+                e, expect[str(ix)] = ir.call('hostCall', ir.var('fnId'), ir.num(5)), ['n', 5]
+            else:
+                e, expect[str(ix)] = ir.call('arrayNew', ir.call('fnId', ir.num(1)), ir.call('fnRec', ir.num(0), ir.num(3))), \
+                    ['L', [['n', 1], ['n', 3]]]
+            kinds.append('script-call')
         elif c < 0.12:
             # a library function that parses one of its string arguments: syntactically invalid expression text
             rows = ir.call('arrayNew', ir.call('objectNew', ir.s('a'), ir.num(1)), ir.call('objectNew', ir.s('a'), ir.num(2)))
@@ -347,7 +369,7 @@ def gen_adversarial(seed, rng):
              'http://h/c.txt': {'data': True, 'text': 'C', 'stmts': [], 'broken': False}}
     plan = {'seed': seed, 'family': 'adversarial', 'model': stmts, 'kinds': kinds, 'faults': faults,
             'fetch_faults': ffaults, 'files': files, 'has_log': rng.random() < 0.9, 'has_fetch': rng.random() < 0.9,
-            'entry': rng.choice(['script', 'script', 'expression']), 'answers': {}, 'globals': {}}
+            'entry': rng.choice(['script', 'script', 'expression']), 'answers': {}, 'globals': {}, 'expect': expect}
     gen_exec.fixup_plan(plan)
     return plan
 
@@ -417,6 +439,11 @@ def run(plan, stats):
     if compare_outcomes(real0, ref0) is not None:
         stats.c['unattributable'] += 1
         return RunResult([], digest_of(dig))
+    # nested independent uses of the library inside host / log callbacks (fault kind interloper)
+    viols.extend(interloper_probe(base, stats, PROP, real0,
+                                  lambda p: run_real(p, limit=0, sim_options=True, max_starts=20000)))
+    if viols:
+        return RunResult(viols, digest_of(dig))
     sites = host_call_sites(real0.events)
     rng = stream(plan.get('seed', 0), 'faults')
     rot = plan.get('rot', 0)
@@ -459,6 +486,10 @@ def run(plan, stats):
             viols.append(Violation(PROP, rule, sig, {'fault': f, 'diff': diff, 'debug': plan.get('debug'),
                                                      'has_log': plan.get('has_log')}))
         else:
+            if f is todo[0]:
+                # … and together with a failing host function
+                viols.extend(interloper_probe(p, stats, PROP, real,
+                                              lambda q: run_real(q, limit=0, sim_options=True, max_starts=20000)))
             fired = any(e[0] == 'fail' for e in real.events)
             if fired:
                 after = [e for e in real.events]
@@ -551,6 +582,16 @@ def run_adversarial(plan, stats):
             obs = [e for e in out.events if e[0] == 'obs']
             if len(obs) != n_obs:
                 viols.append(Violation(PROP, 'continue', f'statements-skipped:{where}', {'observed': len(obs), 'expected': n_obs}))
+                break
+            for e in obs:
+                tag = e[1][1][0]
+                want = (plan.get('expect') or {}).get(tag[1:] if isinstance(tag, str) else None)
+                if want is not None and e[1][1][1] != want:
+                    viols.append(Violation(PROP, 'contain', 'call-of-a-sound-script-function-did-not-give-its-value',
+                                           {'observation': tag, 'expected': want, 'got': e[1][1][1], 'entry': plan.get('entry'),
+                                            'reports': [x[1] for x in out.events if x[0] == 'log'][:3]}))
+                    break
+            if viols:
                 break
             bad_fetch = check_fetch_shapes(plan, obs)
             if bad_fetch is not None:
